@@ -699,6 +699,11 @@ class Calls(SpecRT, Strings, Loops, AnyVals, AbsSeqs):
         raise Unsupported('subscript of %r' % (c,))
 
     def pseudo_subscript(self, c, i, st, fr):
+        hk = self.ex.hooks.get('pseudo_subscript')
+        if hk:
+            r = hk(c, i, st, fr)
+            if r is not None:
+                return r
         if c.cname == 'dict':
             return self.dict_getitem(c, i, st, fr)
         if c.cname.startswith('seq:') and isinstance(i, SInt):
